@@ -119,6 +119,9 @@ func (mdb *MassDBV1) prePlotWork(cache *MemCache) error {
 
 	var logCheckpointInterval = hmA.volume / 50
 	var checkpoint = hmA.ReadCheckpoint()
+	// windows cover whole (x, x') record pairs: resume from an even position (files written by
+	// earlier versions may hold an odd checkpoint)
+	checkpoint -= checkpoint & 1
 	logging.CPrint(logging.INFO, fmt.Sprintf("load checkpoint for HashMapA: %d/%d (%d/%d)", checkpoint, hmA.volume, checkpoint/logCheckpointInterval, 50),
 		logging.LogFormat{"bit_length": mdb.bl, "pub_key": hex.EncodeToString(mdb.pubKey.SerializeCompressed())})
 
@@ -171,7 +174,7 @@ func (mdb *MassDBV1) prePlotWork(cache *MemCache) error {
 		}
 		hmA.data.Sync() // write pre-plot data first
 
-		hmA.checkpoint = startPoint + 1
+		hmA.checkpoint = endPoint
 		hmA.UpdateCheckpoint()
 		hmA.data.Sync() // then write new checkpoint
 		startPoint = endPoint
@@ -261,7 +264,7 @@ func (mdb *MassDBV1) plotWork(cache *MemCache) error {
 		}
 		hmB.data.Sync() // write plot data first
 
-		hmB.checkpoint = startPoint + 1
+		hmB.checkpoint = endPoint
 		hmB.UpdateCheckpoint()
 		hmB.data.Sync() // then update checkpoint
 		startPoint = endPoint
